@@ -135,7 +135,9 @@ pub fn check_values(c: &CwCase) -> Verdict {
     let res = guard(|| {
         let mut m = MatrixMap::new_with_codewords(&c.cw, size);
         let mut seen_mut = vec![0u8; sym.total()];
+        let mut order_mut: Vec<usize> = Vec::new();
         m.traverse_mut(|i, bits| {
+            order_mut.push(i);
             let mut v = 0u8;
             for b in bits.iter() {
                 v = v << 1 | (**b as u8);
@@ -146,7 +148,9 @@ pub fn check_values(c: &CwCase) -> Verdict {
         });
         let after_read = m.codewords();
         let mut seen = vec![0u8; sym.total()];
+        let mut order: Vec<usize> = Vec::new();
         m.traverse(|i, bits| {
+            order.push(i);
             let mut v = 0u8;
             for b in bits.iter() {
                 v = v << 1 | (*b as u8);
@@ -158,6 +162,11 @@ pub fn check_values(c: &CwCase) -> Verdict {
         if seen != seen_mut {
             seen_mut = vec![]; // reported below as a mismatch
         }
+        // "traverse the symbol in codeword order": a visitor that streams codewords relies on it
+        let in_order = |o: &Vec<usize>| o.len() == sym.total() && o.iter().enumerate().all(|(k, i)| k == *i);
+        if !in_order(&order_mut) || !in_order(&order) {
+            seen_mut = vec![0xEE]; // reported below
+        }
         let target = (c.cw.iter().map(|x| *x as usize).sum::<usize>() + c.cw.len()) % sym.total();
         m.traverse_mut(|i, bits| {
             if i == target {
@@ -168,8 +177,11 @@ pub fn check_values(c: &CwCase) -> Verdict {
     });
     match res {
         Ok((seen_mut, after_read, after_flip, target)) => {
+            if seen_mut == vec![0xEE] {
+                return fail(format!("{}: traverse / traverse_mut do not call the visitor once per codeword in codeword order 0, 1, 2, ...", sym.name));
+            }
             if seen_mut != c.cw {
-                let i = (0..seen_mut.len()).find(|i| seen_mut[*i] != c.cw[*i]);
+                let i = (0..seen_mut.len().min(c.cw.len())).find(|i| seen_mut[*i] != c.cw[*i]);
                 return fail(format!("{}: a reading visitor of traverse_mut sees different codewords than were written (first difference at {:?})", sym.name, i));
             }
             if after_read != c.cw {
